@@ -227,7 +227,7 @@ class Shaper(object):
         self._shape_list = None
 
     def profile_graph(self, string_output=False, output_file=None, verbose=False):
-        self._check_correct_output_params(string_output, output_file)
+        self._check_correct_output_params(string_output, output_file, None)
         if self._target_classes_dict is None:
             self._launch_instance_tracker(verbose=verbose)
         if self._profile is None:
